@@ -142,6 +142,7 @@ def replay_grid_case(case, names=None):
         probs += check_value(val, defs, case["bins"], name)
     if names is None or "measure" in names:
         probs += [(p[1], p[2], p[3], p[4]) for p in measure_checks(res, case, 0, None)]
+        probs += [(p[1], p[2], p[3], p[4]) for p in tabulated_measure_checks(res, case, 0)]
     return probs
 
 
@@ -224,6 +225,34 @@ def _replay_unchanged(case, hist, overflow):
     return probs
 
 
+TABULATED = ("cf_rad", "cf_deg", "cf", "asd", "Hxy_rad_error")
+
+
+def tabulated_measure_checks(res, case, step):
+    """get_measurement on attributes with transcendental values: linear between the TABULATED values (Result.tla MeasureWeight)."""
+    probs = []
+    for name in TABULATED:
+        with np.errstate(all="ignore"):
+            tab = getattr(res, name)
+        if tab is None:
+            continue
+        tab = np.asarray(tab, dtype=float)
+        if not np.all(np.isfinite(tab)):
+            continue
+        for q, wt in case.get("weights", []):
+            j, w = wt["j"] - 1, rat(wt["w"])
+            want = tab[j] + w * (tab[j + 1] - tab[j]) if w != 0 else tab[j]
+            try:
+                got = res.get_measurement(rat(q), name)
+            except Exception as exc:
+                probs.append((f"step{step}:measure", name, -1, f"raises {type(exc).__name__}", str(exc)[:80]))
+                break
+            if not (abs(got - want) <= REL * max(1.0, abs(want))):
+                probs.append((f"step{step}:measure", name, -1, f"value at f={rat(q)}: {got!r}", f"expected {want!r} (linear between tabulated values {tab[j]!r} and {tab[min(j + 1, len(tab) - 1)]!r})"))
+                break
+    return probs
+
+
 def replay_history(item):
     """item = (case, hist).  Execute the operations on one real result; after every step compare the
     returned value with the definition and verify that arrays returned earlier were not mutated."""
@@ -247,6 +276,7 @@ def replay_history(item):
                     hold(name, val)
                 elif kind == "measure":
                     probs += measure_checks(res, case, step, name)
+                    probs += tabulated_measure_checks(res, case, step)
                 elif kind == "frame":
                     df = res.to_dataframe()
                     cols = set(df.columns)
